@@ -33,6 +33,7 @@ type pool struct {
 	label     map[*consensus.VoteMessage]int
 	vari      map[*consensus.VoteMessage]int
 	wireEmpty int // votes whose decoded NTS list is non-nil and empty
+	bigCounts int // decisions whose part count uses the top bit of the 16-bit field
 	psid      [nDec]*consensus.PartSetID
 	rdd       [nDec][]byte
 }
@@ -48,13 +49,27 @@ func newPool(r *rand.Rand) *pool {
 	type dec struct {
 		bid  []byte
 		psid *consensus.PartSetIDAndAppData
+		want *consensus.PartSetID // the model's own copy (count, hash), never derived through ID()
+	}
+	// part counts over the whole 16-bit field (seed C04d: a count mask one bit short is invisible below 32768)
+	cntEdges := []uint16{1, 2, 127, 128, 255, 256, 0x3fff, 0x4000, 0x7fff, 0x8000, 0x8001, 0xfffe, 0xffff}
+	mk := func(b []byte) dec {
+		cnt := uint16(1 + r.Intn(5))
+		switch r.Intn(4) {
+		case 0:
+			cnt = cntEdges[r.Intn(len(cntEdges))]
+		case 1:
+			cnt = uint16(1 + r.Intn(0xffff))
+		}
+		h := bid()
+		if cnt >= 0x8000 {
+			p.bigCounts++
+		}
+		return dec{b, vote.PSID(cnt, h, nid), &consensus.PartSetID{Count: cnt, Hash: append([]byte(nil), h...)}}
 	}
 	decs := [nDec]dec{
-		{vote.NilVoteBlockID(nid), nil},
-		{bidA, vote.PSID(uint16(1+r.Intn(5)), bid(), nid)},
-		{bidB, vote.PSID(uint16(1+r.Intn(5)), bid(), nid)},
-		{bidA, vote.PSID(uint16(1+r.Intn(5)), bid(), nid)},
-		{bidC, vote.PSID(uint16(1+r.Intn(5)), bid(), nid)},
+		{vote.NilVoteBlockID(nid), nil, nil},
+		mk(bidA), mk(bidB), mk(bidA), mk(bidC),
 	}
 	ts := int64(1600000000000000 + r.Intn(1000000))
 	for i := 0; i < maxN; i++ {
@@ -93,7 +108,7 @@ func newPool(r *rand.Rand) *pool {
 		}
 	}
 	for d := 0; d < nDec; d++ {
-		p.psid[d] = decs[d].psid.ID()
+		p.psid[d] = decs[d].want
 		p.rdd[d] = p.votes[0][d][0][0].RoundDecisionDigest()
 	}
 	return p
@@ -453,7 +468,8 @@ func init() {
 			"refused_duplicate", "refused_conflicting", "majority_nil", "majority_block",
 			"boundary_majority_at_floor_plus_1", "boundary_no_majority_at_floor",
 			"conflicting_vote_against_majority_slot", "exhaustive_sequences", "random_sequences",
-			"wire_decoded_votes_with_empty_nts_list", "quorums_needing_a_wire_decoded_vote_with_empty_nts_list"},
+			"wire_decoded_votes_with_empty_nts_list", "quorums_needing_a_wire_decoded_vote_with_empty_nts_list",
+			"decisions_with_part_count_ge_32768"},
 		Assumptions: []string{
 			"a decision is identified by the label the generator gave the vote (block id, part-set id); labels differ in block id or part-set id",
 			"slot contents are read through the verif export hook (voteSet.msgs), not recomputed from goloop's counters",
@@ -475,6 +491,7 @@ func run(c *ev.Ctx) {
 	// the pool only fixes keys/ids; behaviour of the vote set does not depend on them
 	p := newPool(rand.New(rand.NewSource(c.CaseSeed(-1))))
 	c.Count("wire_decoded_votes_with_empty_nts_list", p.wireEmpty)
+	c.Count("decisions_with_part_count_ge_32768", p.bigCounts)
 	nEx := exCases(c.Tier)
 	cfgs := exConfigs(c.Tier)
 	perRand := seqPerRandCase(c.Tier)
